@@ -976,6 +976,87 @@ func crashByHook() {
 	}
 }
 
+// crashThenWriterWithTheSamePid: writers that are each pid 1 of their own pid namespace (containers sharing a cache
+// volume) - the first, storing a LARGE bundle, is killed at a hook point; the second, with the same pid, then stores a
+// SMALL bundle (for another URL, or the same) to completion. Whatever the first left behind, the second's entry is
+// complete and the first's leftover is nobody's entry.
+func crashThenWriterWithTheSamePid() {
+	probe := exec.Command(workerBin, "nothing")
+	probe.SysProcAttr = &syscall.SysProcAttr{Cloneflags: syscall.CLONE_NEWPID}
+	if out, _ := probe.CombinedOutput(); !strings.Contains(string(out), "unknown command") {
+		r.Event("pid-namespaces-unavailable")
+		return
+	}
+	for _, p := range points[:3] {
+		for _, sameURL := range []bool{false, true} {
+			tag := fmt.Sprintf("samepid-%s-%v", p, sameURL)
+			dir, url, other, oldID, otherID := prepCrashDir(tag, true, 2000)
+			bigID := mint(300*1024, true)
+			mark := filepath.Join(scratch, "mark-"+tag)
+			os.Remove(mark)
+			a := exec.Command(workerBin, "cache-set", dir, url, bundleDir, fmt.Sprint(bigID))
+			a.SysProcAttr = &syscall.SysProcAttr{Cloneflags: syscall.CLONE_NEWPID}
+			a.Env = append(os.Environ(), "VERIF_PAUSE_POINT="+p, "VERIF_PAUSE_MARK="+mark)
+			if err := a.Start(); err != nil {
+				r.Inconclusive("same-pid writers: cannot start the first writer: " + err.Error())
+				return
+			}
+			paused := false
+			for i := 0; i < 400 && !paused; i++ {
+				time.Sleep(50 * time.Millisecond)
+				paused = fileExists(mark)
+			}
+			a.Process.Kill()
+			a.Wait()
+			if !paused {
+				r.Event("same-pid-writers-first-writer-never-reached-the-point")
+				os.RemoveAll(dir)
+				continue
+			}
+			target, targetOld := other, otherID
+			if sameURL {
+				target, targetOld = url, oldID
+			}
+			_ = targetOld
+			smallID := mint(700, false)
+			b := exec.Command(workerBin, "cache-set", dir, target, bundleDir, fmt.Sprint(smallID))
+			b.SysProcAttr = &syscall.SysProcAttr{Cloneflags: syscall.CLONE_NEWPID}
+			out, err := b.CombinedOutput()
+			r.Eval("crash|" + tag)
+			r.Event("kills-followed-by-a-writer-with-the-same-pid")
+			wit := map[string]any{"kill_point": p, "same_url": sameURL, "first_writer_bundle": bigID, "second_writer_bundle": smallID}
+			if ents, err := os.ReadDir(dir); err == nil {
+				var names []string
+				for _, e := range ents {
+					names = append(names, e.Name())
+				}
+				wit["directory_after"] = names
+			}
+			if err != nil {
+				r.Violation(map[string]string{"kind": "set-after-kill-failed", "monitor": "same-pid-writers"}, fmt.Sprintf("the second writer (same pid as the killed one) failed: %v %s", err, out), wit)
+				os.RemoveAll(dir)
+				continue
+			}
+			res := procGet(dir, target, url, other)
+			if res == nil {
+				os.RemoveAll(dir)
+				continue
+			}
+			wit["reads"] = res
+			if g := res[0]; g.ID != smallID || !g.Bytes {
+				r.Violation(map[string]string{"kind": "read-after-recovery", "monitor": "same-pid-writers"},
+					fmt.Sprintf("a writer with the pid of a killed writer stored bundle %d (Set returned nil); a read started afterwards yields %d (bytes ok=%v err=%q)", smallID, g.ID, g.Bytes, g.Err), wit)
+			}
+			if !sameURL {
+				if g := res[1]; g.ID != oldID || !g.Bytes {
+					r.Violation(map[string]string{"kind": "read-after-kill", "monitor": "same-pid-writers"}, fmt.Sprintf("the killed writer's URL yields %d (err=%q), its previous entry is %d", g.ID, g.Err, oldID), wit)
+				}
+			}
+			os.RemoveAll(dir)
+		}
+	}
+}
+
 func crashByStrace() {
 	if _, err := exec.LookPath("strace"); err != nil {
 		r.Inconclusive("strace not available")
@@ -1260,6 +1341,7 @@ func main() {
 		timed("step-boundaries", stepBoundaries)
 		timed("step-boundaries-cross-process", stepBoundariesCrossProcess)
 		timed("crash-by-hook", crashByHook)
+		timed("crash-then-writer-with-the-same-pid", crashThenWriterWithTheSamePid)
 	}
 	timed("hammer", hammer)
 	timed("large-entries", largeEntries)
